@@ -72,6 +72,37 @@ structure SyncInv (c : DrawCfg) (d : Option Style) (s : Scr) (t : ATerm) : Prop 
   g3 : ∀ x y, s.cells.inRange x y → (s.cells.cells x y).lock = false → (s.cells.cells x y).lastMain ≠ 0 →
         ∀ b st, t.grid x y = .shown b true st → x + 1 < s.w → t.grid (x + 1) y = .cont
 
+/-- width by which the column walk of the corner trick's `px` loop advances (tscreen.go: `if w < 1 { w = 1 }`) -/
+def rawW (b : Buf) (x y : Int) : Int := if (b.getContent x y).2.2.2 < 1 then 1 else (b.getContent x y).2.2.2
+
+/-- column `p` is reached from column `a` by the walk of the `px` loop over row `y` (stored widths, no lock test) -/
+inductive RawReach (b : Buf) (y : Int) : Int → Int → Prop
+  | refl (a : Int) : RawReach b y a a
+  | step (a p : Int) : RawReach b y (a + rawW b a y) p → RawReach b y a p
+
+/-- THE SIDE CONDITION of the corner-trick theorems, on the screen a draw starts from: on a terminal that needs the
+bottom-right insert-character trick the screen is at least two columns wide and no cell of the last row is locked.
+Why a whole row: drawCell's locked-neighbour guard makes the draw loop step over a wide rune beside a locked cell by one
+column, while the trick's `px` loop (tscreen.go drawCell, "Repaint what belongs in the second to last column") walks by
+stored widths; one locked cell anywhere in the last row can put the two walks out of phase, and then the trick repaints
+a cell the display does not show (see `Props.C01.corner_trick_lock_desync`).  With the neighbour itself locked the trick
+writes into a locked cell (open finding C13-corner-trick-locked-neighbour). -/
+def CornerSafe (c : DrawCfg) (s : Scr) : Prop :=
+  c.cornerTrick = true → 2 ≤ s.w ∧ ∀ i, s.cells.locked i (s.h - 1) = false
+
+/-- what a pass over the last row knows when it is about to visit column `x`: the `px` loop reaches `x` as well, and
+the cell the pass came from is clean, with its hidden right half marked dirty -/
+structure CornerGhost (s : Scr) (x y : Int) : Prop where
+  reach : RawReach s.cells y 0 x
+  pred : 1 ≤ x → ∃ p, 0 ≤ p ∧ RawReach s.cells y 0 p ∧ p + rawW s.cells p y = x ∧
+    (s.cells.cells p y).lastMain ≠ 0 ∧ (s.cells.cells p y).last = (s.cells.cells p y).content ∧
+    (rawW s.cells p y > 1 → (s.cells.cells (p + 1) y).lastMain = 0)
+
+/-- the extra context a pass carries on corner-trick terminals while it is in the last row -/
+def CornerCtx (c : DrawCfg) (s : Scr) (x y : Int) : Prop :=
+  c.cornerTrick = true → y = s.h - 1 → x < s.w →
+    (2 ≤ s.w ∧ (∀ i, s.cells.locked i y = false) ∧ CornerGhost s x y)
+
 /-- the number of columns the draw loop advances by at column `x` (drawCell's return value, tscreen.go:815-970): GetContent's
 width, except that a wide rune whose right neighbour is locked counts one column when the repaired drawCell paints it
 (`guardLocked`, only if the cell is Dirty — the tree as it is) or always (`walkGuard`, the proposed fix); a wide rune
@@ -93,6 +124,12 @@ def visitsG (c : DrawCfg) (b : Buf) (y : Int) : Nat → Int → Int → Bool
 
 /-- column `x` of row `y` is visited by a whole-row pass of a draw that starts with buffer `b` -/
 def visitedG (c : DrawCfg) (b : Buf) (x y : Int) : Bool := visitsG c b y b.w.toNat 0 x
+
+/-- C13's exception clause "the neighbour used to paint the bottom-right corner on auto-margin terminals": when the
+corner cell is repainted, the second to last column of the last row and the cell covering it are written as well -/
+def CornerWrite (c : DrawCfg) (b : Buf) (p : Int × Int) : Prop :=
+  c.cornerTrick = true ∧ p.2 = b.h - 1 ∧ b.dirty (b.w - 1) (b.h - 1) = true ∧ visitedG c b (b.w - 1) (b.h - 1) = true ∧
+    (p.1 = b.w - 2 ∨ p.1 = Scr.coverStart b (b.h - 1) (b.w - 1).toNat 0 (b.w - 1))
 
 /-- the walk of the pinned drawCell (no locked-neighbour guard): it depends on the stored widths only -/
 def visits (rw : Rune → Int) (b : Buf) (y : Int) : Nat → Int → Int → Bool
@@ -150,10 +187,16 @@ structure VisitPost (c : DrawCfg) (d : Option Style) (s : Scr) (t : ATerm) (x y 
   style_same : s'.style = s.style
   cursor_same : s'.cursorx = s.cursorx ∧ s'.cursory = s.cursory ∧ s'.cursorStyle = s.cursorStyle ∧ s'.cursorColor = s.cursorColor
   flags_same : s'.clear = s.clear ∧ s'.fini = s.fini
-  writes : t'.writes = if s.cells.dirty x y then (x, y) :: t.writes else t.writes
+  /-- payload goes to the visited cell only, and only if it is dirty — except in the bottom-right corner trick, which
+  also writes the second to last column and the cell covering it (`cornerPx`) -/
+  writes : ∃ ws, t'.writes = ws ++ t.writes ∧ (s.cells.dirty x y = false → ws = []) ∧
+    ∀ p ∈ ws, p = (x, y) ∨ (c.cornerTrick = true ∧ y = s.h - 1 ∧ x = s.w - 1 ∧ p.2 = y ∧
+      (p.1 = s.w - 2 ∨ p.1 = Scr.coverStart s.cells y x.toNat 0 x))
   /-- with the guard compiled in, no cell a payload of this iteration occupies — the addressed cell or the right half
   of a two-column glyph — is locked -/
   covers : ∃ cs, t'.covered = cs ++ t.covered ∧ (c.guardLocked = true → ∀ p ∈ cs, s.cells.locked p.1 p.2 = false)
   vis_same : t'.visible = t.visible ∧ t'.shape = t.shape
+  /-- the draw loop marks the hidden right half of a two-column step dirty -/
+  nb : wd > 1 → x + 1 < s.w → (s'.cells.cells (x + 1) y).lastMain = 0
 
 end Tcell
